@@ -9,11 +9,13 @@ from enum_cf import Enumerator, encode_body, sigma_full, sigma_ctl, sigma_typed
 BATCH = 2000
 
 
-def batches_of(label, symbols, params, locals_groups, result, n, inputs, imports):
-    """generator of Batches covering every valid body with <= n symbols"""
+def batches_of(label, symbols, params, locals_groups, result, n, inputs, imports, exact=False):
+    """generator of Batches covering every valid body with <= n symbols (exact: only those with exactly n)"""
     locs = ''.join(t * c for c, t in locals_groups)
     E = Enumerator(symbols, params, locs, result)
     it = E.enumerate(n)
+    if exact:
+        it = (seq for seq in it if len(seq) == n)
     while True:
         part = list(itertools.islice(it, BATCH))
         if not part:
@@ -31,7 +33,7 @@ def batches_of(label, symbols, params, locals_groups, result, n, inputs, imports
 def main(tier):
     chk = Check('C03', 'exploration', tier)
     t0 = time.time()
-    deadline = t0 + (150 if tier == 'quick' else 1500)
+    deadline = t0 + (150 if tier == 'quick' else 2400)
     w2c2 = build_w2c2('plain')
     build_ref()
     vals = [0, 1, 2, 3, 0xffffffff]
@@ -45,14 +47,21 @@ def main(tier):
     ntyp = 4 if tier == 'quick' else 5
     for n in range(1, nfull + 1):
         pass
-    plans.append(('full', S, p, [(1, 'i'), (1, 'I')], r, nfull, in_ii, mark))
+    plans.append(('full', S, p, [(1, 'i'), (1, 'I')], r, nfull, in_ii, mark, False))
     S2, p2, l2, r2 = sigma_ctl()
-    plans.append(('ctl', S2, p2, [], r2, nctl, in_ii, []))
+    plans.append(('ctl', S2, p2, [], r2, nctl, in_ii, [], False))
     groupings = [((1, 'f'), (2, 'F'), (1, 'i')), ((2, 'I'), (1, 'f'), (1, 'F')), ((1, 'F'), (1, 'I'), (1, 'f'), (1, 'i'))]
     for T in 'IfF':
         for gi, g in enumerate(groupings if tier == 'thorough' else groupings[:2]):
             S3, p3, l3, r3, g3 = sigma_typed(T, 'iI', g)
-            plans.append(('typed-%s-g%d' % (T, gi), S3, p3, list(g3), r3, ntyp, in_iI, []))
+            plans.append(('typed-%s-g%d' % (T, gi), S3, p3, list(g3), r3, ntyp, in_iI, [], False))
+    if tier == 'thorough':
+        # extension passes, cheapest first: only bodies with exactly N+1 instructions; the deadline may cut them short (reported per alphabet)
+        for T in 'IfF':
+            S3, p3, l3, r3, g3 = sigma_typed(T, 'iI', groupings[0])
+            plans.append(('typed-%s-g0+6' % T, S3, p3, list(g3), r3, 6, in_iI, [], True))
+        plans.append(('ctl+9', S2, p2, [], r2, 9, in_ii, [], True))
+        plans.append(('full+6', S, p, [(1, 'i'), (1, 'I')], r, 6, in_ii, mark, True))
     per = {}
     import concurrent.futures
     capped = False
@@ -70,10 +79,14 @@ def main(tier):
                     d['bodies'] += res['funcs']; d['evaluations'] += res['evals']; d['nontrivial'] += res['nontrivial']
                 else:
                     chk.cov['exhaustive'] = False
-        for (label, S_, p_, g_, r_, n_, inp, imps) in plans:
+        for (label, S_, p_, g_, r_, n_, inp, imps, exact_) in plans:
             per.setdefault(label, {'bodies': 0, 'evaluations': 0, 'nontrivial': 0})['max_instructions'] = n_
+            per[label]['exactly_n_only'] = exact_
             first = True
-            for b in batches_of(label, S_, p_, g_, r_, n_, inp, imps):
+            if time.time() > deadline:
+                capped = True; per[label]['capped'] = True
+                continue
+            for b in batches_of(label, S_, p_, g_, r_, n_, inp, imps, exact_):
                 if time.time() > deadline:
                     capped = True
                     per[label]['capped'] = True
@@ -85,7 +98,9 @@ def main(tier):
                 drain(NCPU * 3)
         drain(0)
     if capped:
-        chk.cov['exhaustive'] = False
+        # the base passes (every alphabet up to its base N) are complete unless marked capped; only extension passes may be cut
+        chk.cov['exhaustive'] = not any(v.get('capped') and not v.get('exactly_n_only') for v in per.values()) and False
+        chk.cov['completed_without_cap'] = sorted(k for k, v in per.items() if not v.get('capped'))
     chk.cov['alphabets'] = per
     chk.cov['rule'] = ('validator-driven DFS enumerates every valid function body with <= N instructions over each alphabet (full: 33 symbols, '
                        'ctl: 13 symbols, typed-*: carried value of type i64/f32/f64 with mixed-type params and locals in several declaration '
